@@ -135,6 +135,23 @@ void harness(void) {
     fsr_obj.signal_length = T;               /* cached length (jls_core_fsr_length is decided separately) */
     SYM_BYTES(store, STOREBYTES, "store");
 
+#ifdef MODE_MISUSE
+    /* C10-O5: any 64-bit start/length that is not a window inside the signal: error code (or 0 for a non-positive length),
+     * no block requested outside the signal, nothing written, termination */
+    SYM_I64(start);
+    SYM_I64(len);
+    bool inside = (start >= 0) && (len >= 1) && (start <= (int64_t) total) && (len <= (int64_t) total - start);
+    ASSUME(!inside);
+    uint8_t * out = verif_malloc(1);
+    out[0] = 0xEE;
+    int32_t rc = jls_core_fsr(&core, 1, start, out, len);
+    if (len <= 0) {
+        CHECK(rc == 0 || rc == JLS_ERROR_PARAMETER_INVALID, "a non-positive length reads nothing");
+    } else {
+        CHECK(rc != 0, "a window that is not inside the signal is rejected with an error code");
+    }
+    CHECK(out[0] == 0xEE && n_loads == 0, "a rejected window touches neither the caller's buffer nor the file");
+#else
     SYM_U32(start);
     SYM_U32(len);
     ASSUME(len >= 1 && (uint64_t) start + len <= total);
@@ -152,5 +169,6 @@ void harness(void) {
         CHECK(got == want, "sample read back equals the stored sample bit for bit");
     }
     CHECK(obj[0] == 0xEE || outbytes == OUTMAX + 1, "nothing written in front of the caller's buffer");
+#endif
     WITNESS_END();
 }
